@@ -623,7 +623,55 @@ def trees(draw, features=None, min_decls=2, max_decls=9, max_packets=3, canonica
     return g.tree
 
 
+def _gen_simple_body(self, dir_):
+    """A small struct of fixed-size members only (integers, bools, enums, fixed-length strings,
+    earlier fixed-size structs), part of them optionally inside a <chunked> section with breaks:
+    the typical array element. Shapes the general grammar produces only rarely."""
+    names = set()
+    enums = self.visible_types(dir_, "enum")
+    fixed_structs = [x for x in self.visible_types(dir_, "struct") if (self.an.struct_fixed_size(x) or 0) > 0]
+
+    def member():
+        k = self.weighted([("int", 6), ("bool", 1), ("enum", 2 if enums else 0), ("str", 2),
+                           ("struct", 2 if fixed_structs else 0)])
+        ins = {"tag": "field", "name": _uniq_name(self.draw, FIELD_NAMES, names, "f")}
+        if k == "int":
+            ins["type"] = self.pick(INT_TYPES)
+        elif k == "bool":
+            ins["type"] = "bool"
+        elif k == "enum":
+            ins["type"] = self.pick(enums)
+        elif k == "struct":
+            ins["type"] = self.pick(fixed_structs)
+        else:
+            ins["type"] = self.pick(["string", "encoded_string"])
+            ins["length"] = str(self.draw(st.integers(1, 4)))
+            if self.boolean(0.4):
+                ins["padded"] = True
+        return ins
+
+    body = [member() for _ in range(self.draw(st.integers(1, 3)))]
+    if self.boolean(0.45):
+        inner = [member() for _ in range(self.draw(st.integers(1, 3)))]
+        if self.boolean(0.5):
+            inner.insert(self.draw(st.integers(1, len(inner))), {"tag": "break"})
+        chunk = {"tag": "chunked", "body": inner}
+        pos = self.pick(["front", "back", "only"])
+        if pos == "front":
+            body = [chunk] + body
+        elif pos == "back":
+            body = body + [chunk]
+        else:
+            body = [chunk]
+    return body, {}
+
+
+_Gen.gen_simple_body = _gen_simple_body
+
+
 def _gen_struct_body(self, dir_):
+    if self.draw(st.integers(0, 99)) < 22:
+        return self.gen_simple_body(dir_)
     body, ctx = self.gen_body(dir_, lex=False, reached_optional=False, depth=0, max_n=6)
     if getattr(self, "canonical", False):
         canonicalise(body, True)
